@@ -118,6 +118,16 @@ theorem tok_pos_partial (s : Bytes) (t : LTok) (ht : t ∈ lexAll s) (hk : t.tok
     t.pos = lineCol s t.off :=
   (lexAll_good s t ht).2 hk hclean hchunk
 
+/-- The same with a hypothesis on the INPUT only: in a document that contains neither `/**/`
+(the D62 shape) nor a backslash directly followed by a newline, every token whose chunk has no
+newline (i.e. every token except a keyword directly followed by a newline, D18) carries its true
+position. -/
+theorem tok_pos_input_partial (s : Bytes) (h1 : ¬ HasEmptyComment s) (h2 : ¬ HasEscapedNewline s)
+    (t : LTok) (ht : t ∈ lexAll s) (hk : t.tok ≠ .eof)
+    (hchunk : countNL ((s.drop t.off).take (t.stop - t.off)) = 0) :
+    t.pos = lineCol s t.off :=
+  (lexAll_good s t ht).2 hk (lexAll_clean s h1 h2 t ht) hchunk
+
 /-- Every position the scanner hands out (hence every node and error position) has
 1 ≤ line ≤ (number of `\n`) + 1, D18/D62 or not. -/
 theorem tok_lines_in_doc (s : Bytes) (t : LTok) (ht : t ∈ lexAll s) :
